@@ -122,7 +122,7 @@ PROPS["C01"] = {
     "level": "proof",
     "verus": {"pool": POOL_FNS},
     "assumptions": [
-        "only the encode/decode pairs the whole-history statement rests on are decided; finisher/flush/drop logic, crash points, Package::open reconstruction, save/reopen idempotence and streams need the cfb container and are NOT covered",
+        "only the encode/decode pairs the whole-history statement rests on are decided, plus the save step itself on a container model (group finish: FinishImpl::finish / Package::flush leave no part marked modified on Ok and clear a mark only with a completed write); drop logic, crash points, Package::open reconstruction, save/reopen idempotence and streams need the cfb container and are NOT covered",
         "cfb stores and returns stream bytes faithfully",
         "StringPool::incref is a trusted contract in the Verus group (iter_mut().enumerate()); checked bounded by kani:pool_incref_2slots",
     ],
@@ -182,13 +182,15 @@ PROPS["C15"] = {
     "level": "proof",
     "verus": {"serial": ["Table::write_rows", "StringPool::write_pool", "StringPool::write_data", "PropertySet::write",
                          "PropertyValue::write", "ColumnType::write_value", "StringRef::write", "SummaryInfo::write"],
-              "finish": ["FinishImpl::finish", "StringPool::is_modified", "StringPool::mark_unmodified"]},
+              "finish": ["FinishImpl::finish", "StringPool::is_modified", "StringPool::mark_unmodified",
+                         "Package::flush", "Package::set_finisher", "Package::comp_mut"]},
     "assumptions": [
         "the writer is modelled by VSink (prelude/sink.rs): bytes accepted vs bytes known committed; only a successful flush() commits; any call may fail -- this is what the documented Write contract lets generic code assume about cfb::Stream, whose Drop discards the result of its final flush",
         "decided: each of the four serializers (write_rows, write_pool, write_data, PropertySet::write) and the forwarder SummaryInfo::write returns Ok only after a successful flush that follows its last write, and propagates every writer error it sees",
         "decided (group finish): FinishImpl::finish on the model container VComp/VStream (prelude/comp.rs, rule X3c): it returns Ok only when no part is left marked modified, and a modified mark is cleared -- on ANY return path -- only together with a completed write of that part: the stream was handed to a serializer that returned Ok, or everything written to it was flushed successfully before its scope ended (the implicit drop is made explicit by rule X11). Package is reduced to the four fields finish touches (X10)",
         "imported into group finish without re-proof: the serializer contracts of group serial ('Ok only after flush'), stated as stream_done(id) -- a timeless predicate over stream ids, sound because an id is handed out once and a stream is consumed once; the size precondition ps_fits of PropertySet::write (section size fits u32) is not re-established by finish",
-        "NOT covered: Package::flush / into_inner / Drop (dyn Finish dispatch, then CompoundFile::flush), the table-stream call sites in query.rs and create_table (write_rows is handed the stream by value there too, but those functions are outside the extractable subset), user-held StreamWriters, read/seek faults, the cfb container itself",
+        "decided (group finish): Package::flush returns Ok only when the pending finisher (if any) ran successfully and CompoundFile::flush succeeded; Box<dyn Finish<F>> is read as Box<FinishImpl> (closed world: the private trait has one implementor)",
+        "NOT covered: into_inner / Drop, the invariant 'a modified part implies a pending finisher' (established by the mutating API methods), the table-stream call sites in query.rs and create_table (write_rows is handed the stream by value there too, but those functions are outside the extractable subset), user-held StreamWriters, read/seek faults, the cfb container itself",
     ],
 }
 
@@ -198,6 +200,7 @@ READER_FNS = ["StringRef::read", "ColumnType::read_value", "Timestamp::read_from
               "lemma_ref_join", "lemma_unoffset16", "lemma_unoffset32", "lemma_zero32", "lemma_header_bits"]
 PROPS["C02"]["verus"]["readers"] = READER_FNS
 PROPS["C09"]["verus"]["readers"] = READER_FNS
+PROPS["C01"]["verus"]["finish"] = ["FinishImpl::finish", "Package::flush"]
 PROPS["C01"]["verus"]["readers"] = ["StringRef::read", "ColumnType::read_value", "Timestamp::read_from", "PropertyValue::read",
                                     "StringPoolBuilder::read_from_pool", "lemma_le16_roundtrip", "lemma_parse_entry",
                                     "lemma_entries_front", "lemma_pool_pair"]
